@@ -46,7 +46,35 @@ def pulp_to_matrix(lp):
     return vs, c, c0, A_ub, np.array(b_ub), A_eq, np.array(b_eq), bounds
 
 
+class _QuietFd:
+    """HiGHS prints diagnostics straight to fd 1; keep them out of the check's stdout."""
+
+    def __enter__(self):
+        import os, sys
+
+        try:
+            sys.stdout.flush()
+        except Exception:
+            pass
+        self._saved = os.dup(1)
+        self._dn = os.open(os.devnull, os.O_WRONLY)
+        os.dup2(self._dn, 1)
+
+    def __exit__(self, *a):
+        import os
+
+        os.dup2(self._saved, 1)
+        os.close(self._saved)
+        os.close(self._dn)
+        return False
+
+
 def _lin(c, A_ub, b_ub, A_eq, b_eq, bounds):
+    with _QuietFd():
+        return _lin0(c, A_ub, b_ub, A_eq, b_eq, bounds)
+
+
+def _lin0(c, A_ub, b_ub, A_eq, b_eq, bounds):
     return linprog(
         c,
         A_ub=A_ub,
